@@ -7,7 +7,7 @@ LEVEL = "exploration"
 RULE = ("trees {A=base(L), B=base(L) with one byte flipped at offset o, C=base(L)} and {A1=A2=base(L), B1=B2=flipped} (two classes of equal length that survive the early stages) (+ hard-link and symlink/-S variants; + two tmpfs mounts under one root whose files have equal inode numbers) "
         "for L in {0,1,4095,4096,4097,16383,16384,16385,65535,65536,65537,131073} and o in "
         "{0,4095,4096,16383,16384,L-4097,L-4096,L/2,L-1}; x hash function x pinned disk kind (x cache, prefix/suffix "
-        "sizes, -t 1 in thorough); transform sub-space: keep/shrink/double/prefix programs x 5 I/O modes on trees that "
+        "sizes, -t 1 in thorough); prefix/suffix windows: --max-prefix-size in {4096, 8192, 16384} x --max-suffix-size around L - prefix (touching, overlapping, leaving a gap) with the differing byte on either side of each boundary; transform sub-space: keep/shrink/double/prefix programs x 5 I/O modes on trees that "
         "differ before / only beyond the input length; transforms that exit with status 1 after no / two bytes of output, run once and twice with --cache (no group may be reported); cache histories: warm `--cache` run, then one member of a group gets the other class's bytes at the same length with its mtime moved forward / backward by seconds or by 1 ms, or by a rename over it / a swap of two files, then a second cached run; two cached runs with transforms that run the same program with other arguments. Oracle: every reported group is re-read and compared byte for "
         "byte (transform output for --transform), file_len == that length. Non-trivial = a run that reported at least "
         "one group of >= 2 paths; distinct by (tree, configuration).")
@@ -147,6 +147,19 @@ def cases(tier, seed):
                     if not quick:
                         out.append(mk(tree_plain(L, o), "plain", L, o, "blake3", "unknown", extra + ["--cache"],
                                       repeat=2, tr=[op, mode]))
+    # prefix / suffix windows: explicit sizes chosen so that prefix + suffix touch, overlap by one byte or leave a gap
+    # of one byte, with the differing byte on either side of every boundary (files at / above the SSD suffix threshold)
+    for L in ((65536, 70000) if quick else (65536, 65537, 70000, 131073)):
+        for px in (4096, 8192, 16384):
+            for sx in sorted(set([L - px, L - px - 1, L - px + 1, L - 4096, L - 4097, L - 8192])):
+                if sx <= 0:
+                    continue
+                for o in sorted(set([4095, 4096, px - 1, px, L - sx - 1, L - sx, L - sx + 1])):
+                    if not (0 <= o < L):
+                        continue
+                    for d in (("ssd",) if quick else ("ssd", "unknown")):
+                        out.append(mk(tree_two(L, o), "two", L, o, "metro", d,
+                                      ["--max-prefix-size", str(px), "--max-suffix-size", str(sx)]))
     # two cached runs whose transforms run the same program with other arguments (shrink: first two bytes, equal for
     # A and B when the difference lies later; keep: everything)
     for L, o in ((10, 9), (5000, 4999)):
